@@ -84,7 +84,7 @@ def main():
             meta['checks'][c] = {'exit': rc, 'lines': viol[:6], 'detail': det[:4], 'wall_s': round(time.time() - t0, 1),
                                  'summary': [l for l in out.split('\n') if l.startswith(c + ' quick')]}
             meta['ran'].append('VERIF_REPO=<patched worktree> ./check %s --tier quick -> exit %d' % (c, rc))
-        meta['detected_by'] = [c for c in checks if meta['checks'][c]['exit'] == 1]
+        meta['detected_by'] = [c for c in checks if meta['checks'][c]['exit'] == 1 and any(l.startswith('VIOLATION') for l in meta['checks'][c]['lines'])]
         return finish(meta, prop, k, patch, demo, sdir, ok=True)
     finally:
         sh('git -C /repo worktree remove --force %s' % wt)
